@@ -118,8 +118,15 @@ func c12(r *mon.Run) {
 		},
 		Do: func(i int, t *mon.Tally) {
 			mode := i % len(c12Modes)
+			if mode == 7 && r.Tier == "quick" && (i/len(c12Modes))%3 != 0 {
+				t.Count("rotation rounds left to the thorough tier")
+				return
+			}
 			tree := trees[(i/len(c12Modes))%len(trees)]
 			N := []int{2, 4, 16}[(i/7)%3]
+			if mode == 7 && N > 8 {
+				N = 8 // (every goroutine makes up to 300 calls in this mode)
+			}
 			procs := []int{16, 2}[(i/3)%2]
 			runtime.GOMAXPROCS(procs)
 			rng := gen.DeriveN(r.Seed, "c12round", i)
@@ -156,7 +163,7 @@ func c12(r *mon.Run) {
 			var wres []ref.Result
 			var wout [][]mon.Observed
 			if mode == 7 {
-				W := []int{70, 140, 300}[(i/len(c12Modes))%3]
+				W := []int{70, 140, 70, 300}[(i/len(c12Modes)/3)%4]
 				start := (i / len(c12Modes)) * 37
 				seen := map[string]bool{}
 				for j := 0; len(wexprs) < W && j < len(trees); j++ {
